@@ -1050,9 +1050,15 @@ func fullSet() iset { return iset{{new(big.Int).Set(minI64), new(big.Int).Set(ma
 
 // affine value a·δ + c (a ∈ {-1,0,1}) in wrapping int64 arithmetic
 type affine struct {
-	a int64
-	c *big.Int
+	a  int64 // coefficient of δ = x − y when the value is a function of δ (valid iff a0 == -a1)
+	c  *big.Int
+	a0 int64 // coefficient of the first parameter
+	a1 int64 // coefficient of the second parameter
 }
+
+func mkAff(a0, a1 int64, c *big.Int) affine { return affine{a: a0, c: c, a0: a0, a1: a1} }
+
+func (f affine) deltaOnly() bool { return f.a0+f.a1 == 0 }
 
 // guardTrueSet analyses a bool function g(x, y uintptr) whose decision depends only on δ = int64(x - y):
 // returns the set of δ for which it returns true. ok=false when the function leaves the supported fragment.
@@ -1076,8 +1082,14 @@ func guardTrueSet(fn *ssa.Function) (iset, string) {
 		}
 		if c, ok := v.(*ssa.Const); ok && c.Value != nil && c.Value.Kind() == constant.Int {
 			if bi, ok := new(big.Int).SetString(c.Value.ExactString(), 10); ok {
-				return affine{0, bi}, true
+				return mkAff(0, 0, bi), true
 			}
+		}
+		if v == ssa.Value(fn.Params[0]) {
+			return mkAff(1, 0, big.NewInt(0)), true
+		}
+		if v == ssa.Value(fn.Params[1]) {
+			return mkAff(0, 1, big.NewInt(0)), true
 		}
 		return affine{}, false
 	}
@@ -1184,22 +1196,13 @@ func guardTrueSet(fn *ssa.Function) (iset, string) {
 			case *ssa.BinOp:
 				switch x.Op {
 				case token.SUB, token.ADD:
-					// x - y of the two params = δ (in uintptr), else affine arithmetic
-					if x.X == ssa.Value(fn.Params[0]) && x.Y == ssa.Value(fn.Params[1]) && x.Op == token.SUB {
-						st.env[x] = affine{1, big.NewInt(0)}
-						continue
-					}
-					if x.X == ssa.Value(fn.Params[1]) && x.Y == ssa.Value(fn.Params[0]) && x.Op == token.SUB {
-						st.env[x] = affine{-1, big.NewInt(0)}
-						continue
-					}
 					l, ok1 := evalAff(st, x.X)
 					r, ok2 := evalAff(st, x.Y)
 					if ok1 && ok2 {
 						if x.Op == token.ADD {
-							st.env[x] = affine{l.a + r.a, new(big.Int).Add(l.c, r.c)}
+							st.env[x] = mkAff(l.a0+r.a0, l.a1+r.a1, new(big.Int).Add(l.c, r.c))
 						} else {
-							st.env[x] = affine{l.a - r.a, new(big.Int).Sub(l.c, r.c)}
+							st.env[x] = mkAff(l.a0-r.a0, l.a1-r.a1, new(big.Int).Sub(l.c, r.c))
 						}
 					}
 				case token.LSS, token.LEQ, token.GTR, token.GEQ, token.EQL, token.NEQ:
@@ -1210,13 +1213,21 @@ func guardTrueSet(fn *ssa.Function) (iset, string) {
 							fail = "unsigned comparison of a symbolic distance at " + x.String()
 							return
 						}
+						if !l.deltaOnly() || !r.deltaOnly() {
+							fail = "comparison of a value that is not a function of the distance alone: " + x.String()
+							return
+						}
+						if l.a < -1 || l.a > 1 || r.a < -1 || r.a > 1 {
+							fail = "distance scaled by a factor other than ±1"
+							return
+						}
 						st.env[x] = cmp{l, r, x.Op}
 					}
 				}
 			case *ssa.UnOp:
 				if x.Op == token.SUB {
 					if a, ok := evalAff(st, x.X); ok {
-						st.env[x] = affine{-a.a, new(big.Int).Neg(a.c)}
+						st.env[x] = mkAff(-a.a0, -a.a1, new(big.Int).Neg(a.c))
 					}
 				}
 			case *ssa.Convert:
@@ -1225,7 +1236,7 @@ func guardTrueSet(fn *ssa.Function) (iset, string) {
 					sw, _ := typeWidth(x.X.Type())
 					if w == 64 && sw == 64 {
 						st.env[x] = a // uintptr ↔ int64 reinterpretation
-					} else if a.a == 0 {
+					} else if a.a0 == 0 && a.a1 == 0 {
 						st.env[x] = a
 					} else {
 						st.env[x] = nil // narrowing of a symbolic value: outside the fragment
